@@ -2,5 +2,5 @@ SPECIFICATION SSpec
 CONSTANTS Sizes <- MCSizes5
           Mut = "none"
 VIEW NoHist
-INVARIANTS SeekAccepted SeekInside SeekUpAccepted PartialAccepted StoredTrue HonestAccepted
+INVARIANTS SeekAccepted SeekInside SeekUpAccepted PartialAccepted PartialForgeSound StoredTrue HonestAccepted
 CHECK_DEADLOCK FALSE
